@@ -270,6 +270,17 @@ def rand_breaks(rng, ts, te, grid, maxn=12, dyadic=True):
     return [ts] + pts + [te]
 
 
+def _no_subnormal_gaps(x):
+    """breakpoints closer than 1e-290 (possible 1 ulp next to 0.0) are outside the domain: binary64 interpolation between
+    them underflows.  The end points are kept."""
+    out = [x[0]]
+    for t in x[1:-1]:
+        if t - out[-1] >= 1e-290 and x[-1] - t >= 1e-290:
+            out.append(t)
+    out.append(x[-1])
+    return out
+
+
 def pwc_func(rng, ts, te, grid, shared=None, int_valued=False, dyadic=True):
     x = rand_breaks(rng, ts, te, grid, dyadic=dyadic)
     if shared and rng.random() < 0.4:
@@ -279,7 +290,7 @@ def pwc_func(rng, ts, te, grid, shared=None, int_valued=False, dyadic=True):
             pick = [rng.choice([t, math.nextafter(t, math.inf), math.nextafter(t, -math.inf), t * (1 + 1e-9), t + (te - ts) * 1e-6])
                     for t in pick]
         inner = sorted(t for t in (set(x[1:-1]) | set(pick)) if ts < t < te)
-        x = [ts] + inner + [te]
+        x = _no_subnormal_gaps([ts] + inner + [te])
     if int_valued:
         y = [rng.randint(0, 5) for _ in range(len(x) - 1)]
     else:
@@ -341,6 +352,7 @@ def history(rng, kind, tier):
                 if xs[-1] < u < te:
                     xs.append(u)
             xs.append(src["x"][-1])
+            xs = _no_subnormal_gaps(xs)
             n_ = len(xs) - 1
             if kind == "pwc":
                 f = {"x": xs, "y": [rng.choice(VALS) for _ in range(n_)]}
